@@ -29,7 +29,9 @@ TokSgr(s, i) ==
     LET j == BodyStop(s, i + 2) IN
     IF j = 0 THEN << <<"open", SubSeq(s, i, Len(s))>> >>
     ELSE IF s[j] = ESC THEN << <<"csi", SubSeq(s, i, j - 1)>> >> \o TokSgr(s, j)       \* aborted by the ESC
-    ELSE IF s[j] = LOWM THEN << <<"sgr", SubSeq(s, i + 2, j - 1)>> >> \o TokSgr(s, j + 1)
+    \* a parameter string that begins with one of < = > ? is private use: not SGR even when the final byte is m
+    ELSE IF s[j] = LOWM /\ ~(j > i + 2 /\ s[i + 2] \in 60..63)
+         THEN << <<"sgr", SubSeq(s, i + 2, j - 1)>> >> \o TokSgr(s, j + 1)
     ELSE << <<"csi", SubSeq(s, i, j)>> >> \o TokSgr(s, j + 1)
   ELSE << <<"c", <<s[i]>> >> >> \o TokSgr(s, i + 1)
 
